@@ -235,9 +235,14 @@ def gen_program(rng, fam, profile):
         child_paths = [(1,), (2,)]
     buffered = None
     n_files = 1
-    if profile in ("buffered", "bufctx"):
+    if profile in ("buffered", "bufctx", "bufreaders"):
         n_files = rng.choice([1, 2, 2])
-        buffered = ("class", rng.choice([None, 0, 1, 2, 30, 60]))
+        # serialized sizes are bytes (one document is about 40), shared-memory sizes count files
+        buffered = ("class", rng.choice([None, 0, 1, 2, 30, 60] if profile != "bufreaders" else [None, 0, 1, 2, 45, 60, 60, 80]))
+        if n_files == 2 and getattr(fam, "buffered", None) == "serialized" and rng.random() < 0.5:
+            # one document fits, two do not: the FIRST LOAD of the second file - also a plain read,
+            # which holds no lock - forces the flush of the first
+            buffered = ("class", 60)
     two_objs = rng.random() < 0.5
     objs = []
     for f in range(n_files):
@@ -257,7 +262,7 @@ def gen_program(rng, fam, profile):
         for p in child_paths:
             if rng.random() < 0.6:
                 handles.append((oi, p))
-    n_threads = 2 if rng.random() < 0.8 else 3
+    n_threads = 2 if rng.random() < (0.8 if profile != "bufreaders" else 0.45) else 3
     threads = []
     if profile == "rebind":
         # `obj.filename = other` through one object while another thread writes through a second
@@ -289,7 +294,7 @@ def gen_program(rng, fam, profile):
         ops = []
         n_ops = 1 if n_threads == 3 or rng.random() < 0.6 else 2
         for j in range(n_ops):
-            reader = profile == "readers" and (t == 0 or rng.random() < 0.3)
+            reader = profile in ("readers", "bufreaders") and (t == 0 or rng.random() < 0.3)
             ops.append(gen_op(rng, is_dict, init, objs, handles, reader, profile))
         threads.append(ops)
     if profile == "buffered" and inits and rng.random() < 0.45:
@@ -434,13 +439,13 @@ def judge(prog, serial, run, profile):
     if prog.buffered and not shared_reader_object(prog):
         # reads only through objects no other thread uses: this is C13's territory
         if run["finals"] not in fins:
-            v.append((("C13",), "lost-update", "final content %s is not the result of the writers in any serial order (a buffered update was lost or invented)" % run["finals"]))
+            v.append((("C13", "C14"), "lost-update", "final content %s is not the result of the writers in any serial order (a buffered update was lost or invented)" % run["finals"]))
         for t, ops in enumerate(prog.threads):
             for j, op in enumerate(ops):
                 got = run["results"][t][j] if j < len(run["results"][t]) else ("missing",)
                 allowed = {tuple(s["results"][t][j]) for s in serial}
                 if tuple(got) not in allowed:
-                    v.append((("C13",), "result:" + op[1], "T%d op %s returned %s; serially it returns one of %s" % (t, op, got, sorted(allowed))))
+                    v.append((("C13", "C14"), "result:" + op[1], "T%d op %s returned %s; serially it returns one of %s" % (t, op, got, sorted(allowed))))
         return v
     if run["finals"] not in fins:
         v.append((("C14",) + (("C13",) if prog.buffered else ()), "lost-update", "final content %s is not the result of the writers in any serial order (a writer's update was lost or invented)" % run["finals"]))
@@ -476,12 +481,21 @@ def shared_reader_object(prog):
 def c14_signature(prog, run, viol_kind):
     """root-cause signature of a reader/writer violation, from the event trace"""
     same = shared_reader_object(prog)
-    where = "same-object:" if same else "separate-objects:"
+    if same:
+        # A thread reads through a root object (or a child of it) that another thread uses.  Reads
+        # take no lock (documented design), so on the unchanged tree such a program can already
+        # lose updates, return impossible values and raise from the unlocked merge in many ways;
+        # all of them are ONE finding, identified by this call pattern, not by the symptom.
+        return "C14:same-object:lock-free-read"
+    if prog.buffered and getattr(prog, "strategy", None) == "memory":
+        # inside a shared-memory buffered context the objects bound to one file ARE one container:
+        # the lock-free read races with the writer exactly as on a single object
+        return "C14:shared-memory-buffered-objects:lock-free-read"
+    where = "separate-objects:"
     if viol_kind != "lost-update":
-        # per-operation kinds carry the operation name; it is part of the signature only where
-        # the cause is specific to the operation (separate objects)
+        # per-operation kinds carry the operation name: the cause is specific to the operation
         base, _, opname = viol_kind.partition(":")
-        return "C14:" + where + (base if same else base + ":" + opname)
+        return "C14:" + where + base + ":" + opname
     return "C14:" + where + _lost_update_mechanism(prog, run)
 
 
@@ -536,6 +550,7 @@ def unit_conc(args):
     res = dict(kind="oracle", fam=fam_index, seed=seed, profile="conc/" + profile, steps=0, stats={}, violations=[])
     try:
         prog = gen_program(rng, fam, profile)
+        prog.strategy = fam.buffered
         serial = [run_serial(ns, fam, prog, o) for o in serial_orders(prog)]
         n = 0
         found = {}
@@ -549,7 +564,7 @@ def unit_conc(args):
             for switches, start, run in S.explore(lambda ch, st=st: run_once(_with_start(ch, st)), bound, max(budget // len(starts), 1)):
                 n += 1
                 for props, kind, msg in judge(prog, serial, run, profile):
-                    sig = c14_signature(prog, run, kind) if props[0] == "C14" else "%s:%s" % (props[0], kind)
+                    sig = c14_signature(prog, run, kind) if "C14" in props else "%s:%s" % (props[0], kind)
                     if sig not in found:
                         found[sig] = dict(props=list(props), msg=msg, fam=fam.short, kind="conc", sig=sig, ops=None,
                                           extra=dict(prog=repr(prog), switches=list(switches), start=st, fam_index=fam_index))
@@ -563,7 +578,7 @@ def unit_conc(args):
                 run = run_scheduled(ns, fam, prog, ch, line_level=True)
                 n_line += 1
                 for props, kind, msg in judge(prog, serial, run, profile):
-                    sig = c14_signature(prog, run, kind) if props[0] == "C14" else "%s:%s" % (props[0], kind)
+                    sig = c14_signature(prog, run, kind) if "C14" in props else "%s:%s" % (props[0], kind)
                     if sig not in found:
                         found[sig] = dict(props=list(props), msg=msg + " [line-level random schedule %d]" % i, fam=fam.short, kind="conc-line", sig=sig, ops=None,
                                           extra=dict(prog=repr(prog), rand_index=i, seed=seed, npts=npts, fam_index=fam_index))
